@@ -115,8 +115,13 @@ package textwire
 
 // ---- loading (C06, C07, C18) ----
 
+// C18: the directory is remembered without leading and trailing slashes, whatever its spelling
 //@ func Configure
 //@   ensures opt != nil ==> userConfig.DebugMode == opt.DebugMode
+//@   ensures directory-without-surrounding-slashes: opt != nil && old(opt.TemplateDir) != "" ==> userConfig.TemplateDir == lib("strings.Trim", old(opt.TemplateDir), "/")
+//@   ensures directory-kept: opt == nil || old(opt.TemplateDir) == "" ==> userConfig.TemplateDir == old(userConfig.TemplateDir)
+//@   ensures extension-taken-over: opt != nil && old(opt.TemplateExt) != "" ==> userConfig.TemplateExt == old(opt.TemplateExt)
+//@   ensures extension-kept: opt == nil || old(opt.TemplateExt) == "" ==> userConfig.TemplateExt == old(userConfig.TemplateExt)
 //@   ensures usesTemplates
 //@   modifies userConfig.*, usesTemplates
 
